@@ -36,6 +36,8 @@ KMOVREF = "move/reference-field-keeps-old-name"
 KDEREF = "delete-deref/client-fragment-not-marked-modified"
 KDELREF = "delete/reference-update-not-marked-modified"
 KMOVAFF = "move/codes-without-target-affixes-crash-metaflush"
+KREFREPR = "metaflush+reopen/reference-name-ending-in-dot-r-i-m-a"
+KAMB = "dirfile_standards/number-like-scalar-code-needs-version-8"
 
 
 def hx(b):
@@ -137,6 +139,18 @@ class Gen:
     def dbl(self, hard):
         d = self.hard_double() if hard else self.safe_double()
         return dbits(d)
+
+
+def numlike(b):
+    """could _GD_TokToNum read this name as a number?"""
+    t = b.decode("latin1").strip()
+    for f in (float, lambda x: int(x, 0)):
+        try:
+            f(t.split(";")[0] if t else t)
+            return True
+        except ValueError:
+            pass
+    return t == ""
 
 
 def canon_sv(v):
@@ -267,6 +281,8 @@ def gen_case(g, cid, hard, rich):
             c.pure = False
         frag_box[0] = 1 if (c.inc and parent is None and r.random() < 0.5) else 0
         n = g.name(used) if parent is None else g.name(set())
+        if frag_box[0] == 1 and k == "RAW" and c.inc[0] and n in (b"r", b"i", b"m", b"a") and not g.facts.get("NAME_FLAG"):
+            n = n + b"_"        # see the finding on /REFERENCE and names ending in .r .i .m .a
         if frag_box[0] == 1:
             n = aff(n)
             if n in used:
@@ -483,6 +499,8 @@ def gen_case(g, cid, hard, rich):
         v = r.choice([6, 7, 8, 9, 10, 9, 8])
         if c.inc and c.inc[0] and not g.facts.get("NS_RULE"):
             v = 10
+        if v < 8 and any(numlike(n_) for n_, _a, _l in consts):
+            v = 8               # see the finding on number-like scalar codes and Standards Version < 8
         c.cmds.append("STD %d" % v)
     return c
 
@@ -627,6 +645,21 @@ def gen_version_cases():
                 if hidden:
                     c.cmds.append("HIDE %s" % hx(b"f"))
                 c.cmds.append("STD %d" % v)
+                out.append(c)
+    # every number-like name as a CONST used as a scalar field code without index (the <0> rule) and with index 0
+    for nmz in Gen.NUMLIKE + [b"7", b"-1", b"+0", b".5", b"5.", b"0x", b"1e5", b"NAN", b"Inf", b"0X1P-2", b"00", b"1;2", b"1;0"]:
+        if b"/" in nmz or b"." in nmz:
+            continue        # dots are namespace separators (outside the entry model)
+        for idx in (-1, 0):
+            for v in (8, 10):
+                c = Case("v%d" % n)
+                n += 1
+                c.pretty = False
+                c.pure = False
+                c.cmds += ["OPEN 0", "ADD CONST 0 - %s 001 5 0" % hx(nmz),
+                           "ADD PHASE 0 - %s %s 0 S 0 %s %d" % (hx(b"ph"), hx(b"in"), hx(nmz), idx),
+                           "ADD LINCOM 0 - %s 1 0 %s 0 0 %016x 0 S 0 %s %d" % (hx(b"lc"), hx(b"in"), dbits(2.0), hx(nmz), idx),
+                           "STD %d" % v]
                 out.append(c)
     for extra in (["FRAGATTR 0 4 -1 0 -1"], ["FRAGATTR 0 0 2 0 -1"], ["FRAGATTR 0 0 -1 7 -1"], ["FRAGATTR 0 0 -1 0 3000000"],
                   ["ADD CONST 0 - %s 001 1 0" % hx(b"a b")], ["ADD CONST 0 - %s 001 1 0" % hx(b"a#b")], ["ADD CONST 0 - %s 001 1 0" % hx(b"ENCODING")],
@@ -896,7 +929,7 @@ def main():
     m = re.search(r"FLUSH_DIGITS (\d+)", tout)
     P = int(m.group(1)) if m else 15
     facts = {}
-    for k_, v_ in re.findall(r"\b(INC_BLANK|NS_RULE|REPRZ|STRIP_GUARD|TOK_ZERO|HIDDEN_SKIPS) (\d)", tout):
+    for k_, v_ in re.findall(r"\b(INC_BLANK|NS_RULE|REPRZ|STRIP_GUARD|NAME_FLAG|INHERIT_RULE|TOK_ZERO|HIDDEN_SKIPS) (\d)", tout):
         facts[k_] = (v_ == "1")
     # 2. proofs
     proved = chk.prove("Properties_C07", extra_targets=["Gen/Formats.vo"])
@@ -958,6 +991,8 @@ def main():
             (KREPRZ, ["OPEN 0", "INC 0 %s - %s -" % (hx(b"sub"), hx(b"p")), "ADD PHASE 1 - %s %s 1" % (hx(b"px"), hx(b"pr"))]),
             (KINH, ["OPEN 0", "INC 0 %s - - -" % hx(b"sub"), "FRAGATTR 0 4 -1 0 -1"]),
             (KMOVREF, ["OPEN 0", "INC 0 %s - - %s" % (hx(b"sub"), hx(b"_S")), "ADD RAW 0 - %s 088 1" % hx(b"d"), "MFLUSH", "MOVE %s 1 2" % hx(b"d")]),
+            (KREFREPR, ["OPEN 0", "INC 0 %s %s - -" % (hx(b"sub"), hx(b"ns")), "ADD RAW 1 - %s 088 1" % hx(b"ns.i")]),
+            (KAMB, ["OPEN 0", "ADD CONST 0 - %s 001 5 0" % hx(b"1e3"), "ADD PHASE 0 - %s %s 0 S 0 %s -1" % (hx(b"ph"), hx(b"in"), hx(b"1e3")), "STD 6"]),
             (KMOVAFF, ["OPEN 0", "INC 0 %s - - %s" % (hx(b"sub"), hx(b"_S")), "ADD CONST 0 - %s 001 5 0" % hx(b"k"),
                        "ADD PHASE 0 - %s %s 0 S 0 %s -1" % (hx(b"ph"), hx(b"in"), hx(b"k")), "MOVE %s 1 2" % hx(b"ph")]),
             (KDELREF, ["OPEN 0", "INC 0 %s - - -" % hx(b"sub"), "ADD RAW 1 - %s 088 3" % hx(b"d"), "MFLUSH", "DELETE %s 8" % hx(b"d")]),
@@ -1099,7 +1134,7 @@ def main():
     kinds_seen = {}
     for c in allc:
         r_ = res[c.cid]
-        forced = getattr(c, "wkey", None) if getattr(c, "wkey", None) in (KINC, KNSV, KREPRZ, KINH, KMOVREF, KDEREF, KDELREF, KMOVAFF) else None
+        forced = getattr(c, "wkey", None) if getattr(c, "wkey", None) in (KINC, KNSV, KREPRZ, KINH, KMOVREF, KDEREF, KDELREF, KMOVAFF, KREFREPR, KAMB) else None
 
         def viol(key, desc, rep, found=True, forced=forced):
             return chk.violation(forced if forced else key, desc, rep, found=(found or bool(forced)))
@@ -1109,6 +1144,11 @@ def main():
         if not hasattr(c, "A") and any(x.startswith("MOVE ") for x in c.cmds) and fl and fl[-1][1:] == ["-6", "-6"]:
             viol(KMOVAFF if facts.get("STRIP_GUARD") else KMOVREF,
                  "after gd_move gd_metaflush fails with GD_E_INTERNAL_ERROR: a field code (the stale /REFERENCE name, or an input/scalar code of the moved field) does not carry the fragment's affixes, case %s" % c.cid, replay)
+            continue
+        if not hasattr(c, "A") and fl and fl[-1][1:] == ["-6", "-6"] and any(x.startswith("STD ") and int(x.split()[1]) < 8 for x in c.cmds) \
+                and any(" S " in x and any(numlike(unhx(t_)) for t_ in re.findall(r" S \d+ ([0-9a-f.]+) -1", x)) for x in c.cmds):
+            viol(KAMB, "gd_dirfile_standards accepted a Standards Version < 8 although a number-like CONST name is used as a scalar field code without index "
+                 "(needs the <0> suffix of Version 8); gd_metaflush then fails with GD_E_INTERNAL_ERROR (case %s)" % c.cid, replay)
             continue
         if not hasattr(c, "A"):
             # metaflush itself failed or nothing was written
@@ -1131,6 +1171,9 @@ def main():
                 elif "REFERENCE field code not found" in S["errstr"] and any(x.startswith("MOVE ") for x in c.cmds):
                     viol(KMOVREF, "after gd_move of the reference field the fragment keeps the old name in /REFERENCE and the dirfile no longer opens (%s): %s" % (
                         "plain" if tag == "B" else "GD_PEDANTIC", S["errstr"][:160]), dict(replay, reopen=tag, error=S["errstr"]))
+                elif "REFERENCE field code not found" in S["errstr"] and re.search(r"\.[rima]\b", " ".join((unhx(t_) or b"").decode("latin1") for x in c.cmds if x.startswith("ADD RAW") for t_ in x.split()[4:5])):
+                    viol(KREFREPR, "a RAW field whose name ends in .r/.i/.m/.a (one-character name in a namespace) is written to /REFERENCE without that ending "
+                         "(_GD_WriteFieldCode takes it for a representation suffix): %s" % S["errstr"][:120], dict(replay, reopen=tag, error=S["errstr"]))
                 elif "REFERENCE field code not found" in S["errstr"] and any(x.startswith("DELETE ") for x in c.cmds):
                     viol(KDELREF, "gd_delete of a reference RAW field clears /REFERENCE of the other fragments in memory without marking them modified; the stale directive makes the dirfile unopenable (%s): %s" % (
                         "plain" if tag == "B" else "GD_PEDANTIC", S["errstr"][:160]), dict(replay, reopen=tag, error=S["errstr"]))
